@@ -332,7 +332,11 @@ func (s *Server) await(cond func() bool) (quiesce.Outcome, []quiesce.G) {
 			continue
 		case <-t.C:
 		}
-		q, gs := quiesce.Quiet()
+		q, gs := quiesce.QuietUnless(func() bool {
+			s.mu.Lock()
+			defer s.mu.Unlock()
+			return cond()
+		})
 		if q {
 			s.mu.Lock()
 			ok := cond()
